@@ -22,7 +22,8 @@
 From Coq Require Import List NArith ZArith Bool.
 Import ListNotations.
 Require Import V.base.Fld V.gen.Formulas V.model.CurveParams V.model.Curve V.model.ScalarMul.
-Require Import V.proofs.Curve_proofs V.proofs.ScalarMul_proofs V.proofs.F7_instance.
+From Coq Require Import Znumtheory.
+Require Import V.proofs.Curve_proofs V.proofs.ScalarMul_proofs V.proofs.F7_instance V.proofs.ZpField_proofs.
 
 (* ---- short Weierstrass: the complete addition program ------------------------------------ *)
 
@@ -149,6 +150,25 @@ Theorem C14_is_zero_iff : forall (F : Type) (K : fops F), flaws K -> forall Z : 
   (W_IsZero K Z = true <-> Z = f0 K).
 Proof. exact @is_zero_spec. Qed.
 Print Assumptions C14_is_zero_iff.
+
+(* What exists at run time, for a prime modulus p: the regenerated addition program evaluated with
+   the raw-integer operations Zp p of base/Fld.v (what the implementation computes modulo p, and
+   what the extracted driver evaluates) followed by ToAffine equals the raw-integer chord-tangent
+   law waff_add (Zp p) of model/Curve.v, on canonical residues.  Fp p is the field of canonical
+   residues (a field because p is prime: hypothesis), fp_val its embedding into Z. *)
+Theorem C14_zp_add_program_is_model : forall (p : Z) (p_prime : prime p) (a b : Fp p),
+  fadd (FpOps p p_prime) (f1 (FpOps p p_prime)) (f1 (FpOps p p_prime)) <> f0 (FpOps p p_prime) ->
+  fadd (FpOps p p_prime) (fadd (FpOps p p_prime) (f1 (FpOps p p_prime)) (f1 (FpOps p p_prime)))
+       (f1 (FpOps p p_prime)) <> f0 (FpOps p p_prime) ->
+  no_two_torsion (FpOps p p_prime) a b ->
+  forall P Q : Fp p * Fp p * Fp p,
+  valid (FpOps p p_prime) a b P -> valid (FpOps p p_prime) a b Q ->
+  let '(X1, Y1, Z1) := h3 (fp_val p) P in
+  let '(X2, Y2, Z2) := h3 (fp_val p) Q in
+  w_to_affine (Zp p) (W_Add (Zp p) (fp_val p a) (fp_val p b) X1 Y1 Z1 X2 Y2 Z2) =
+  waff_add (Zp p) (fp_val p a) (w_to_affine (Zp p) (X1, Y1, Z1)) (w_to_affine (Zp p) (X2, Y2, Z2)).
+Proof. exact zp_add_program_is_model. Qed.
+Print Assumptions C14_zp_add_program_is_model.
 
 (* ---- twisted Edwards, extended coordinates ---------------------------------------------------- *)
 
